@@ -21,6 +21,19 @@ from common import FILL, sx
 GRID_DIMS = {"n_node": 0, "n_edge": 1, "n_face": 2}
 
 
+def arr_equal(x, y, equal_nan=False):
+    """np.array_equal that also works for dtypes isnan() does not accept (str, object, datetime)"""
+    x, y = np.asarray(x), np.asarray(y)
+    if equal_nan and x.dtype.kind in "fc" and y.dtype.kind in "fc":
+        return bool(np.array_equal(x, y, equal_nan=True))
+    if equal_nan and (x.dtype.kind == "O" or y.dtype.kind == "O"):
+        # e.g. shift() on boolean data: object arrays holding True/False and NaN
+        if x.shape != y.shape:
+            return False
+        return all((p is q) or (p == q) or (p != p and q != q) for p, q in zip(x.ravel().tolist(), y.ravel().tolist()))
+    return bool(np.array_equal(x, y))
+
+
 def mk_grid(m):
     import uxarray as ux
     lon, lat = m.lonlat()
@@ -137,7 +150,7 @@ def run_program(ck, rng, meshes, grids, prog, centred, lead, routes, stats, mode
             keep_fn = np.array(a.uxgrid.face_node_connectivity.values)
             tmp.uxgrid.node_lat.values[:] = tmp.uxgrid.node_lat.values * 0.5
             tmp.uxgrid.face_node_connectivity.values[0, 0] = tmp.uxgrid.face_node_connectivity.values[0, 1]
-            if not (np.array_equal(keep_lat, a.uxgrid.node_lat.values) and np.array_equal(keep_fn, a.uxgrid.face_node_connectivity.values)):
+            if not (arr_equal(keep_lat, a.uxgrid.node_lat.values) and arr_equal(keep_fn, a.uxgrid.face_node_connectivity.values)):
                 ck.fail("deep_copy_grid_not_independent", {"meshes": [{"nodes": m.nodes, "faces": m.faces} for m in meshes],
                                                            "centred": centred, "lead": lead, "program": []}, {"op": "copy_deep"})
                 a.uxgrid.node_lat.values[:] = keep_lat
@@ -178,7 +191,7 @@ def run_program(ck, rng, meshes, grids, prog, centred, lead, routes, stats, mode
                     mops.append(["x", routes.get(name, "HPlain"), do])
                     mexpect.append((False, None, None))
                 break
-            if tuple(r.dims) != tuple(want.dims) or not np.array_equal(np.asarray(r.values), np.asarray(want.values), equal_nan=True):
+            if tuple(r.dims) != tuple(want.dims) or not arr_equal(np.asarray(r.values), np.asarray(want.values), equal_nan=True):
                 ck.fail("values_differ_from_plain_xarray", case_s, info,
                         detail="dims %s vs %s" % (r.dims, want.dims))
             if deep:
@@ -209,11 +222,13 @@ def run_program(ck, rng, meshes, grids, prog, centred, lead, routes, stats, mode
                     if gdim == "n_face":
                         # the subset keeps the caller's face order, so the values are plain positional indexing
                         want = np.asarray(a.values).take(idx, axis=list(a.dims).index(gdim))
-                        if np.asarray(r.values).shape != want.shape or not np.array_equal(np.asarray(r.values), want, equal_nan=True):
+                        if np.asarray(r.values).shape != want.shape or not arr_equal(np.asarray(r.values), want, equal_nan=True):
                             ck.fail("values_differ_from_plain_xarray", case_s, dict(info, op="isel_grid_faces"),
                                     detail="isel(n_face=%s)" % idx)
                 else:
                     el = {"n_face": "face centers", "n_node": "nodes", "n_edge": "edge centers"}[gdim]
+                    if element_counts(a.uxgrid)[gdim] < 3:
+                        continue              # k = 2 nearest neighbours need more than two elements (the tree refuses otherwise)
                     r = a.subset.nearest_neighbor((rng.uniform(-170, 170), rng.uniform(-80, 80)), 2, element=el)
                 mop, newgrid = None, r.uxgrid
             elif kind == "integrate":
@@ -235,7 +250,8 @@ def run_program(ck, rng, meshes, grids, prog, centred, lead, routes, stats, mode
             elif kind == "remap":
                 dest = grids[1]
                 to = rng.choice(["nodes", "face centers", "edge centers"])
-                if rng.random() < 0.5:
+                if rng.random() < 0.5 or element_counts(a.uxgrid)[gdim] < 3:
+                    # (inverse-distance weighting with k = 2 is refused on sources with fewer elements: by design)
                     r = a.remap.nearest_neighbor(dest, remap_to=to)
                 else:
                     r = a.remap.inverse_distance_weighted(dest, remap_to=to, k=2)
